@@ -19,26 +19,34 @@ T = {
          "Lean 4 invariant proof over a labelled transition system + trace-refinement correspondence", "§7.0-7.1", PROTO_NOTE),
  "C02": ("Safety invariants (shutdown implies resume set; no pause after shutdown; final save only after every thread "
          "exited with the clock running) and bounded-step progress (rank function strictly decreasing on every own "
-         "action after shutdown; every live thread has an enabled action) of Pamiq.Proto; trace refinement of real "
-         "launch() runs incl. timed mode, interrupts, deadlock detection.",
+         "action after shutdown; every live thread has an enabled action) of Pamiq.Proto, lifted to whole executions "
+         "(C02Live: along every continuation after shutdown the background threads perform at most 12*n work actions; no "
+         "deadlock among them; the launch epilogue never blocks); trace refinement of real launch() runs incl. timed "
+         "mode, interrupts, deadlock detection; the fake threading primitives are enumerated over all schedules and "
+         "compared with real threading.",
          "Lean 4 invariant + ranking-function proofs + trace-refinement correspondence", "§7.2", PROTO_NOTE),
  "C03": ("Fault at every callback kind and occurrence is a nondeterministic action of Pamiq.Proto: flag before teardown, "
          "teardown phase final, control loop forced to shutdown after seeing a flag or unwinding; trace refinement of "
          "real launch() runs with injected faults.",
          "Lean 4 proofs over the protocol model + fault-injection correspondence", "§7.3", PROTO_NOTE),
  "C04": ("A runtime save occurs only under an acknowledged pause (so C01 applies for its whole duration), no step "
-         "completes during it, resume afterwards iff not already paused; saved files of real runs are compared with "
-         "the event trace at the acknowledgement instant.",
-         "Lean 4 invariant proof + snapshot-vs-trace correspondence", "§7.4", PROTO_NOTE),
+         "completes during it, resume afterwards iff not already paused; product model Pamiq.SysData (protocol x "
+         "component values): while acknowledged the observable values are those of the acknowledgement instant, every "
+         "value a runtime save writes is the value of that instant, nothing stays in transit, the saved data is everything "
+         "collected; real traces (protocol + data events) are replayed through both models and the files of every save "
+         "are compared with the model's predicted snapshot and, independently, with the trace.",
+         "Lean 4 invariant proofs over a product transition system + trace-refinement and snapshot correspondence", "§7.4", PROTO_NOTE),
  "C05": ("load_save / load_save_id: for every system, reader and fresh directory the real save order followed by load yields "
          "the saved observables (buffers incl. loading into smaller ones, arrival counts for every t, trainer markers over "
          "extended rationals, model versions after the post-load sync, every leaf, clock continuing from the saved "
-         "instant); relaunch theorem; correspondence on random systems saved by the real StateStore/launch() and loaded "
-         "into fresh objects and fresh processes.", "Lean 4 round-trip proofs over an abstract file system + differential correspondence", "§7.5",
+         "instant); relaunch theorem; PyTorch trainer part: optimizer / scheduler state files round-trip for every set of "
+         "names (load_save_torch); correspondence on random systems saved by the real StateStore/launch() and loaded "
+         "into fresh objects and fresh processes, and of the real TorchTrainer on the stand-in torch.", "Lean 4 round-trip proofs over an abstract file system + differential correspondence", "§7.5",
          "Trusted: Lean kernel, standard axioms, scripted clock/random. Byte formats (pickle, str(float)) are validated by byte suites, not proved; IEEE rounding not modelled; user components are the harness's."),
  "C06": ("Refinement theorem: the model clock equals the integral of the time scale over un-paused real time for every "
          "history; monotonicity, continuity, export purity, sleep length, bounded slip; exact-rational correspondence "
-         "with time.py on exhaustive small and random histories.",
+         "with time.py on exhaustive small and random histories, concurrent callers under line-granular preemption, "
+         "and a float-regime monitor suite (epoch-sized clock, tiny scales, thousands of reads, ulp tolerance).",
          "Lean 4 refinement proof by induction over operation histories + differential correspondence", "§7.6",
          "Trusted: Lean kernel, standard axioms, scripted stdlib clock. IEEE rounding not modelled (dyadic inputs, exact comparison)."),
  "C07": ("delivered_eq / ts_paired / count_since / exclusive for every collect-update history and queue size; generic "
@@ -48,11 +56,12 @@ T = {
          "Trusted: Lean kernel, standard axioms, line-granular scheduler (harness/linesched.py, sys.monitoring) and its cooperative fake RLock; single deque.append / attribute store assumed atomic; one producer, one consumer."),
  "C08": ("Shutdown-only-for-a-cause invariant of Pamiq.Proto, totality of the step statistics for every firing pattern "
          "of the logging scheduler, uptime-window arithmetic theorem over rationals; timed runs of real launch() over a "
-         "configuration grid.",
+         "configuration grid; float-regime monitor suites for the statistics and the uptime test.",
          "Lean 4 proofs (invariant, totality by induction, arithmetic) + correspondence", "§7.8", PROTO_NOTE),
  "C09": ("Phase structure of Pamiq.Proto: each callback kind only in its phase, no self-overlap, setup not re-entered, "
-         "no work while flagged paused, teardown phase final, save callbacks exclude owner callbacks; per-component "
-         "protocol automaton monitor on real runs.",
+         "no work while flagged paused, teardown phase final, save callbacks exclude owner callbacks; protocol-language "
+         "theorem by refinement (C09Lang: along every trace the phases of every thread are accepted by "
+         "start (tick | pause resume)* [pause] finish); per-component protocol automaton monitor on real runs.",
          "Lean 4 proofs over the protocol model + trace refinement + protocol-automaton monitor", "§7.9",
          PROTO_NOTE + " Components are abstracted to callback kinds in the model; per-component exactly-once is checked on the implementation."),
  "C19": ("Invariant of a two-thread micro-step model of TorchInferenceModel / TorchTrainingModel.sync_impl: sync "
@@ -86,7 +95,8 @@ T = {
          "Lean 4 proofs (decision logic + invariant over histories) + differential correspondence", "§7.14",
          "Trusted: Lean kernel, standard axioms. Parameters abstracted to version numbers; model set fixed after launch."),
  "C15": ("fires_iff, restart only after firing for every clock advance between reads, gap, order/once, step scheduler "
-         "divisibility, save-condition latch, over every history; adversarial clock correspondence.",
+         "divisibility, save-condition latch, raising callbacks never restart the interval, over every history; "
+         "correspondence under an adversarial clock (advancing on every read, stepping back) with raising callbacks.",
          "Lean 4 proofs over update histories + differential correspondence", "§7.15",
          "Trusted: Lean kernel, standard axioms, scripted adversarial clock. `>` boundary as in the code."),
  "C16": ("Arithmetic recurrence of reset instants (reset_gap, no_burst, pause_free) for every history; timed correspondence "
